@@ -152,7 +152,7 @@ def check(ctx):
     # (a "fast path" that patches the list in place -- truncate on drop, append on create -- relies on an ordering the recycled ids do not have and leaves a live
     #  listener out of every later fan-out although the listener set is stable from then on)
     C10 = importlib.import_module("props.C10")
-    sub = type(ctx)(ctx.pid, fx, ctx.tier, ctx.config)
+    sub = util.fresh_ctx(ctx)
     C10.check(sub)
     n9 = 0
     for o in sub.obs:
